@@ -40,6 +40,13 @@ func scaleProject(shape string, n int) *Project {
 			fmt.Fprintf(&sb, "INCLUDE f%d.jst\n", i)
 			file(fmt.Sprintf("f%d.jst", i), fmt.Sprintf("TAG @t%d\n", i))
 		}
+	case "include-doubling":
+		// every file includes the next one twice: n files, 2^n inclusions of the last one
+		sb.WriteString("GET /p\n  INCLUDE d0.jst\n  INCLUDE d0.jst\n")
+		for i := 0; i < n-1; i++ {
+			file(fmt.Sprintf("d%d.jst", i), fmt.Sprintf("INCLUDE d%d.jst\nINCLUDE d%d.jst\n", i+1, i+1))
+		}
+		file(fmt.Sprintf("d%d.jst", n-1), "200 any\n")
 	case "include-same-file":
 		for i := 0; i < n; i++ {
 			fmt.Fprintf(&sb, "GET /p%d\n  INCLUDE r.jst\n", i)
@@ -69,6 +76,13 @@ func scaleProject(shape string, n int) *Project {
 		fmt.Fprintf(&sb, "MACRO @m0\n(\n  200 any\n)\n")
 		for i := 1; i < n; i++ {
 			fmt.Fprintf(&sb, "MACRO @m%d\n(\n  PASTE @m%d\n)\n", i, i-1)
+		}
+		fmt.Fprintf(&sb, "GET /p\n  PASTE @m%d\n", n-1)
+	case "macro-doubling":
+		// every macro pastes the previous one twice: n macros, 2^n pasted directives
+		fmt.Fprintf(&sb, "MACRO @m0\n(\n  200 any\n)\n")
+		for i := 1; i < n; i++ {
+			fmt.Fprintf(&sb, "MACRO @m%d\n(\n  PASTE @m%d\n  PASTE @m%d\n)\n", i, i-1, i-1)
 		}
 		fmt.Fprintf(&sb, "GET /p\n  PASTE @m%d\n", n-1)
 	case "responses":
@@ -115,14 +129,23 @@ func scaleProject(shape string, n int) *Project {
 	return p
 }
 
-var scaleShapes = []string{"tags", "methods", "methods-with-bodies", "types-independent", "types-chain", "includes-flat", "include-same-file", "pastes", "macros", "description-text", "one-big-body", "types-star", "allof-chain", "macro-chain", "responses", "rpc-methods", "tags-on-methods", "methods-using-one-type"}
+var scaleShapes = []string{"tags", "methods", "methods-with-bodies", "types-independent", "types-chain", "includes-flat", "include-same-file", "pastes", "macros", "description-text", "one-big-body", "types-star", "allof-chain", "macro-chain", "responses", "rpc-methods", "tags-on-methods", "methods-using-one-type", "macro-doubling", "include-doubling"}
+
+// scaleSizes: n and 4n per shape (the doubling shapes are exponential in the real code: 4 and 16
+// are enough to show it and small enough to finish).
+func scaleSizes(shape string) [2]int {
+	if strings.HasSuffix(shape, "-doubling") {
+		return [2]int{4, 16}
+	}
+	return [2]int{50, 200}
+}
 
 func scaletestMain() {
 	canonicalEnv()
 	for _, sh := range scaleShapes {
 		var row []string
 		var prev uint64
-		for _, n := range []int{50, 200} {
+		for _, n := range scaleSizes(sh) {
 			p := scaleProject(sh, n)
 			must(Materialise(p.Files))
 			simrt.ResetOps()
